@@ -52,7 +52,8 @@ def run(ctx):
                                  'what': f'C11: pipeline {ci}, schedule {r["schedule"]}: {v[1]}', 'observed': r['results'], 'expected': c['ref']})
     races = 0
     for ci, c in enumerate(cases):
-        cr = c.get('compile_race')
+      for which in ('compile_race', 'call_race'):
+        cr = c.get(which)
         if not cr:
             continue
         races += cr['points']
@@ -61,8 +62,9 @@ def run(ctx):
             if sigs['oracle:first-calls-race'] <= 2:
                 viol.append({'signature': 'oracle:first-calls-race', 'case': {'spec': c['spec'], 'jobs': cr['jobs'], 'pause_after_line': b['pause_after_line']},
                              'observed': b['results'],
-                             'what': f'C11: pipeline {ci}: two threads make their first calls {cr["jobs"]} on a pipeline object nobody has used yet; with thread 0 '
-                                     f'paused after its {b["pause_after_line"]}th executed line of connectome code while thread 1 runs, the results are {json.dumps(b["results"])[:300]}'})
+                             'what': f'C11: pipeline {ci}: two threads call {cr["jobs"]} on a pipeline object ' + ('nobody has used yet' if which == 'compile_race' else 'that has been used before')
+                                     + f'; with thread 0 paused after its {b["pause_after_line"]}th executed line of connectome code while thread 1 runs, the results are '
+                                     f'{json.dumps(b["results"])[:200]}, and the same calls made one after the other afterwards give {json.dumps(b.get("sequential_calls_afterwards"))[:200]}'})
     return {'evaluations': n + races, 'distinct_nontrivial': len(distinct),
             'rule': 'random cached pipelines (RAM caches, often of size 1, and disk caches) called from 2 threads under every schedule of the given '
                     'length (thread switches only at user-function entry and at cache get/set entry; then the threads finish one after another), '
